@@ -73,6 +73,7 @@ type Driver struct {
 	Lines int
 	Ops   int
 	canary string
+	internal map[string]bool // standard addresses of the bound wallets' internal-branch reference keys
 }
 
 const passChars = "0123456789abcdefghijklmnopqrstuvwxyzABCDEFGHIJKLMNOPQRSTUVWXYZ@#$%^&"
@@ -263,6 +264,12 @@ func (d *Driver) bind(w, mnemonic string) error {
 			return fmt.Errorf("harness: reference derivation: %v", err)
 		}
 		d.Ref[x] = r
+		if d.internal == nil {
+			d.internal = map[string]bool{}
+		}
+		for _, a := range r.IntAddrs {
+			d.internal[a] = true
+		}
 		d.emit(&Line{T: "bind", W: x, RefID: r.ID, Ref: r.Addrs, RefMn: r.MnHash, Bits: r.Bits})
 	}
 	return nil
@@ -314,6 +321,9 @@ func (d *Driver) view(in *Instance) ([]WView, error) {
 				return nil, fmt.Errorf("GetAddresses: %v", err)
 			}
 			for _, a := range ads {
+				if d.internal[a.Address] {
+					continue // change addresses restored by a mnemonic import: observed by the impmn operation itself
+				}
 				if a.AddressClass == massutil.AddressClassWitnessStaking {
 					v.Stk = append(v.Stk, a.Address)
 				} else {
